@@ -15,9 +15,9 @@ type VClock struct {
 	now    time.Time
 	timers []*vtimer
 
-	// gate excludes Advance while a goroutine is between reading Now() and arming its timer
-	// (modelling assumption A1); the harness takes RLock/RUnlock from hook callbacks.
-	gate sync.RWMutex
+	// OnNewTimer is called with the clock mutex held when a timer is created: its duration and the
+	// clock value at creation (so the event is exactly ordered with respect to Advance).
+	OnNewTimer func(d time.Duration, now time.Time)
 
 	// OnAdvance is called with the clock mutex held, after now moved and before timers fire.
 	OnAdvance func(now time.Time)
@@ -51,6 +51,9 @@ func (c *VClock) NewTimer(d time.Duration) kclock.Timer {
 	t := &vtimer{c: c, ch: make(chan time.Time, 1), deadline: c.now.Add(d), armed: true}
 	c.lastDeadline = t.deadline
 	c.created++
+	if c.OnNewTimer != nil {
+		c.OnNewTimer(d, c.now)
+	}
 	if !t.deadline.After(c.now) {
 		t.armed = false
 		t.ch <- c.now
@@ -82,8 +85,6 @@ func (c *VClock) LastDeadline() (time.Time, int) {
 
 // Advance moves the clock to `to` (no-op if not later) and fires every due timer in deadline order.
 func (c *VClock) Advance(to time.Time) {
-	c.gate.Lock()
-	defer c.gate.Unlock()
 	c.mu.Lock()
 	defer c.mu.Unlock()
 	if to.Before(c.now) {
